@@ -48,15 +48,13 @@ Print Assumptions C16_scopes_map_order_irrelevant.
    every member of the result is an unparsable input scope or THE rebuilt scope
    of one (type, name) *)
 Theorem C16_scopes_wildcard :
-  forall l, (2 <= length l)%nat ->
+  forall l,
     (forall s t n a, In s l -> classify s = Keyed t n a -> In [c_star] a ->
        In (t ++ [c_colon] ++ n ++ [c_colon] ++ [c_star]) (clean_scopes l)) /\
     (forall y, In y (clean_scopes l) <->
        (In y l /\ classify y = Pass y) \/
        exists k, In k (keys_of (map classify l) []) /\ rebuild (map classify l) k = [y]).
-Proof.
-  exact (fun l H => conj (fun s t n a => star_absorbs l s t n a H) (fun y => clean_scopes_members l y H)).
-Qed.
+Proof. exact (fun l => conj (star_absorbs_all l) (clean_scopes_members_all l)). Qed.
 Print Assumptions C16_scopes_wildcard.
 
 Example C16_scopes_example :
@@ -81,10 +79,10 @@ Print Assumptions C16_scopes_prefix_refuted.
    the request addressed to h satisfies [send_ok h]: it goes to h or to a realm
    that h advertised in this very request, and carries only h's secrets. *)
 Theorem C16_no_cross_host :
-  forall clean cf hist,
-    Forall2 (fun rs out => trace_ok (rq_host (fst rs)) (fst out))
-            hist (fst (run_history clean cf [] hist)).
-Proof. exact (fun clean cf hist => proj2 (run_history_ok clean cf hist [] cache_ok_nil)). Qed.
+  forall clean parse cf hist,
+    Forall2 (fun rs out => trace_ok parse (rq_host (fst rs)) (fst out))
+            hist (fst (run_history clean parse cf [] hist)).
+Proof. exact (fun clean parse cf hist => proj2 (run_history_ok parse clean cf hist [] cache_ok_nil)). Qed.
 Print Assumptions C16_no_cross_host.
 
 (* [send_ok] in the words of the property: every secret attached to a send made
@@ -93,15 +91,15 @@ Print Assumptions C16_no_cross_host.
    request); token requests go to a realm advertised by h in a Bearer challenge
    and carry only h's password or refresh token *)
 Theorem C16_send_ok_reading :
-  forall h pre s, send_ok h pre s ->
+  forall parse h pre s, send_ok parse h pre s ->
     (forall t, In t (send_secrets s) -> taint t = h) /\
     match s with
     | SReg h' a fresh =>
       h' = h /\
       (forall t, In t (send_secrets s) -> long_lived t = true ->
-                 t = SBasicTok h /\ (fresh = true -> basic_challenged h pre))
+                 t = SBasicTok h /\ (fresh = true -> basic_challenged parse h pre))
     | SDist _ realm _ _ _ | SOAuth _ realm _ _ _ =>
-      advertised h realm pre /\ (forall t, In t (send_secrets s) -> t = SUserPass h \/ t = SRefresh h)
+      advertised parse h realm pre /\ (forall t, In t (send_secrets s) -> t = SUserPass h \/ t = SRefresh h)
     end.
 Proof. exact send_ok_reading. Qed.
 Print Assumptions C16_send_ok_reading.
@@ -109,19 +107,19 @@ Print Assumptions C16_send_ok_reading.
 (* over a whole history: a Basic header (the password) reaches registry h only if
    h sent a Basic challenge earlier in the history *)
 Theorem C16_password_only_after_basic_challenge :
-  forall clean cf hist pre h t fr ans post,
-    concat (map fst (fst (run_history clean cf [] hist))) = pre ++ (SReg h (ABasic t) fr, ans) :: post ->
-    basic_challenged h pre.
+  forall parse clean cf hist pre h t fr ans post,
+    concat (map fst (fst (run_history clean parse cf [] hist))) = pre ++ (SReg h (ABasic t) fr, ans) :: post ->
+    basic_challenged parse h pre.
 Proof. exact history_basic_only_after_challenge. Qed.
 Print Assumptions C16_password_only_after_basic_challenge.
 
 (* the cache holds, under host h, only tokens of h -- at every point of every history *)
 Theorem C16_cache_tainted :
-  forall clean cf hist h s k t,
-    cc_get_token (snd (run_history clean cf [] hist)) h s k = Some t -> taint t = h.
+  forall clean parse cf hist h s k t,
+    cc_get_token (snd (run_history clean parse cf [] hist)) h s k = Some t -> taint t = h.
 Proof.
-  exact (fun clean cf hist h s k t H =>
-    tok_fits_taint h s t (proj1 (run_history_ok clean cf hist [] cache_ok_nil) h s k t H)).
+  exact (fun clean parse cf hist h s k t H =>
+    tok_fits_taint h s t (proj1 (run_history_ok parse clean cf hist [] cache_ok_nil) h s k t H)).
 Qed.
 Print Assumptions C16_cache_tainted.
 
@@ -130,7 +128,7 @@ Example C16_history_example :
   let ch0 := b "Bearer realm=""https://auth.example/token"",service=""svc0"",scope=""repository:a:pull""" in
   let ch1 := b "Basic realm=""r""" in
   map (fun o => (map fst (fst o), snd o))
-    (run_model FShared false creds
+    (run_model FShared false creds []
        [ (mkReq 0 [] [] BNone, [A401 ch0; ATok 7; AOk]);
          (mkReq 1 [] [] BNone, [A401 ch1; AOk]);
          (mkReq 0 [] [b "repository:a:pull"] BNone, [AOk]);
@@ -149,9 +147,9 @@ Proof. vm_compute. reflexivity. Qed.
    behaviour including sends that fail (transport error, cancelled context: AErr);
    every outcome has one of the listed causes; a failed send is the last one *)
 Theorem C16_budget :
-  forall clean cf c rq script,
-    let '(evs, c', r) := do_request clean cf c rq script in
-    (reg_sends evs <= 3)%nat /\ (fetches evs <= 1)%nat /\ outcome_ok cf rq evs r.
+  forall parse clean cf c rq script,
+    let '(evs, c', r) := do_request clean parse cf c rq script in
+    (reg_sends evs <= 3)%nat /\ (fetches evs <= 1)%nat /\ outcome_ok parse cf rq evs r.
 Proof. exact do_request_budget. Qed.
 Print Assumptions C16_budget.
 
@@ -159,15 +157,15 @@ Print Assumptions C16_budget.
    by the token endpoint and by the registry), known schemes and a rewindable
    body, the request ends with the registry's non-401 answer within the budget *)
 Theorem C16_valid_credentials_succeed :
-  forall clean cf c rq script,
-    let '(evs, c', r) := do_request clean cf c rq script in
+  forall parse clean cf c rq script,
+    let '(evs, c', r) := do_request clean parse cf c rq script in
     r <> RBad ->
     rq_body rq <> BOnce ->
     r <> RErr ENoCred -> r <> RErr EMissing ->
     (forall s, ~ In (s, AFail) evs) ->
     (forall s, ~ In (s, AErr) evs) ->
     (forall h a hdr, ~ In (SReg h a true, A401 hdr) evs) ->
-    (forall s hdr ps, In (s, A401 hdr) evs -> parse_challenge hdr <> Ch SchUnknown ps) ->
+    (forall s hdr ps, In (s, A401 hdr) evs -> parse hdr <> (SchUnknown, ps)) ->
     r = RResp false /\ (reg_sends evs <= 3)%nat /\ (fetches evs <= 1)%nat /\
     exists h a fresh, last evs no_event = (SReg h a fresh, AOk).
 Proof. exact valid_credentials_succeed. Qed.
@@ -196,12 +194,48 @@ Qed.
 Print Assumptions C16_cache_key.
 
 (* the key is canonical: requests whose hint + challenge scopes are the same set
-   use the same key *)
+   use the same key ... *)
 Theorem C16_cache_key_canonical :
   forall l l', (forall x, In x l <-> In x l') ->
     join [c_space] (clean_scopes l) = join [c_space] (clean_scopes l').
 Proof. exact (fun l l' H => f_equal (join [c_space]) (clean_scopes_same l l' H)). Qed.
 Print Assumptions C16_cache_key_canonical.
+
+(* ... and ONLY then, provided no scope is empty or contains a space (the scopes of
+   a challenge satisfy this: they are the pieces of a split on spaces, and
+   CleanScopes preserves it): equal keys give equal canonical scope sets *)
+Theorem C16_cache_key_injective :
+  forall l l',
+    (forall s, In s l -> key_safe s) -> (forall s, In s l' -> key_safe s) ->
+    join [c_space] (clean_scopes l) = join [c_space] (clean_scopes l') ->
+    clean_scopes l = clean_scopes l'.
+Proof. exact key_determines_scopes. Qed.
+Print Assumptions C16_cache_key_injective.
+
+(* the side condition is needed: a scope HINT containing a space (caller input the
+   protocol cannot express; outside the property's quantifier, see assumptions)
+   aliases the key of a two-element scope set *)
+Theorem C16_cache_key_space_refuted :
+  let l := [b "repository:a:pull repository:b:pull"] in
+  let l' := [b "repository:a:pull"; b "repository:b:pull"] in
+  join [c_space] (clean_scopes l) = join [c_space] (clean_scopes l') /\ clean_scopes l <> clean_scopes l'.
+Proof. exact key_alias_with_space. Qed.
+Print Assumptions C16_cache_key_space_refuted.
+
+(* Client.Do re-uses a token (a send that is not fresh) only if it is in the cache,
+   as it was when the call started, under the request's host, the scheme of the
+   header, and one of the request's own keys (hinted scopes, or CleanScopes of
+   hinted + challenge scopes).  With C16_cache_key (a hit is a token stored under
+   exactly that host, scheme and key) and C16_cache_key_injective this is the
+   clause "a cached token is reused only for the same host, scheme and canonical
+   scope set" for the shared cache; the single-context cache ignores the key by
+   design (C16_single_context_cache). *)
+Theorem C16_reuse_only_own_key :
+  forall parse clean cf c rq script,
+    let '(evs, c', r) := do_request clean parse cf c rq script in
+    Forall (cached_send_ok clean (cf_flavour cf) c rq) evs.
+Proof. exact do_request_cached_sends. Qed.
+Print Assumptions C16_reuse_only_own_key.
 
 (* the single-context cache is documented to ignore scopes (host + scheme only):
    it always hits for the same host and scheme, and never for another host *)
@@ -220,7 +254,9 @@ Print Assumptions C16_single_context_cache.
    the function completes at most once; every caller that receives a result
    receives that one; a second caller enters the function only after the first
    one was cancelled (one fetch in flight); nobody receives a result before one
-   is published; a cancelled fetcher puts the token back *)
+   is published.  (That a cancelled fetcher puts the value back into the channel is the
+   definition of the step OCancelF in Model/Once.v, tied to once.go by the accepted
+   traces with hand-over; it is not a theorem.) *)
 Theorem C16_once :
   (forall tr s, orun OTok tr = Some s ->
      (done_count tr <= 1)%nat /\
@@ -230,10 +266,9 @@ Theorem C16_once :
   (forall p g1 m g2 q s,
      orun OTok (p ++ OAcquire g1 :: m ++ OAcquire g2 :: q) = Some s -> In (OCancelF g1) m) /\
   (forall tr s, orun OTok tr = Some s -> (forall v, s <> OClosed v) ->
-     forall g w, ~ In (OReadClosed g w) tr) /\
-  (forall g, ostep (OHeld g) (OCancelF g) = Some OTok).
+     forall g w, ~ In (OReadClosed g w) tr).
 Proof.
-  exact (conj once_shared_result (conj one_in_flight (conj no_result_before_publication cancel_hands_over))).
+  exact (conj once_shared_result (conj one_in_flight no_result_before_publication)).
 Qed.
 Print Assumptions C16_once.
 
@@ -310,8 +345,8 @@ Print Assumptions C16_set_accepted_trace.
    sent after such a send (so no secret leaves after a cancellation), and a token
    fetch that failed or was cancelled leaves the cache exactly as it was *)
 Theorem C16_failed_sends :
-  forall clean cf c rq script,
-    let '(evs, c', r) := do_request clean cf c rq script in
+  forall parse clean cf c rq script,
+    let '(evs, c', r) := do_request clean parse cf c rq script in
     stops_after_failure evs /\
     ((exists s, last evs no_event = (s, AErr) /\ is_reg (s, AErr) = false) -> c' = c) /\
     ((exists s, last evs no_event = (s, AFail) /\ is_reg (s, AFail) = false) -> c' = c).
@@ -322,7 +357,7 @@ Example C16_failed_send_example :
   let creds := [(0, mkCred true true false false)] in
   let ch0 := b "Bearer realm=""https://auth.example/token"",service=""svc0"",scope=""repository:a:pull""" in
   map (fun o => (map fst (fst o), snd o))
-    (run_model FShared false creds
+    (run_model FShared false creds []
        [ (mkReq 0 [] [] BNone, [A401 ch0; AErr; AOk]);          (* the token request is cancelled *)
          (mkReq 0 [] [] BNone, [A401 ch0; ATok 9; AOk]) ])      (* nothing was cached: full flow again *)
   = [ ([SReg 0 NoAuth false;
